@@ -126,6 +126,25 @@ def declarations(text):
                     item = []
             i = j + 2
             continue
+        if toks[i] in ("use", "reference") and i + 2 < len(toks) and toks[i + 1] == "from" and ";" in toks[i:]:
+            # the items of an interface list are printed in alphabetical order, which changes nothing: compare them sorted
+            j = toks.index(";", i)
+            items, item = [], []
+            for t in toks[i + 3:j]:
+                if t == ",":
+                    items.append(item)
+                    item = []
+                else:
+                    item.append(t)
+            if item:
+                items.append(item)
+            items.sort()
+            out += toks[i:i + 3]
+            for k, it in enumerate(items):
+                out += ([","] if k else []) + it
+            out.append(";")
+            i = j + 1
+            continue
         out.append(toks[i])
         i += 1
     toks = out
